@@ -1,8 +1,8 @@
 (* Canon — canonical form of a method tree (C07).
    A method tree is a compressed trie over the registered patterns with one
    extra rule, the host/path split: while no '/' has been read on the way down
-   ("host mode"; path-only patterns leave it with their first byte) a key never
-   contains a '/' after its first byte, i.e. the first '/' of every pattern
+   ("host mode"; path-only patterns leave it with their first byte) a key either
+   starts with '/' or contains none, i.e. the first '/' of every pattern
    sits at the start of a key.  The price is the only exception to "an inner
    node that carries no route has at least two children": a '/'-free hostname
    node in host mode may have the single child that starts with '/'.
@@ -31,11 +31,11 @@ Definition host_split (pat : bytes) : nat :=
   match index_byte pat "/" with Some i => i | None => 0 end.
 
 (* ---------- shape ---------- *)
-Definition has_slash (k : bytes) : bool := existsb (Ascii.eqb "/") k.
+Definition has_slash (k : bytes) : bool := existsb (fun x => Ascii.eqb x "/") k.
 
 (* host = no '/' read so far *)
 Definition key_ok (host : bool) (k : bytes) : bool :=
-  match k with [] => false | _ :: t => negb (host && has_slash t) end.
+  match k with [] => false | c :: t => negb host || Ascii.eqb c "/" || negb (has_slash t) end.
 Definition next_host (host : bool) (k : bytes) : bool := host && negb (has_slash k).
 
 Definition fb (n : node) : nat := match nkey n with c :: _ => nat_of_ascii c | [] => 0 end.
